@@ -1,6 +1,7 @@
 import Driver.Proto
 import XsdataModel.Ctx.Context
 import XsdataModel.Ctx.Memo
+import XsdataModel.Ctx.Conc
 open Lean Proto Py Xs.Ctx
 
 namespace OpsCtx
@@ -173,6 +174,24 @@ def run (op : String) (a : Json) : Option (Except String Json) :=
           let (p', _, m) := parseCall (Doc := NsMap) (R := Unit) id (fun _ => ()) p d arg
           jObj [("inst", jmap p'.nsMap), ("arg", jOpt jmap m)] :: go p' rest
       pure <| ok (Json.arr (go ⟨[]⟩ cs).toArray)
+  | "conc.run" => some do
+      let U ← universeOf a
+      let w ← worldOf a
+      let warm ← getBool a "warm"
+      let ps ← getArr a "progs"
+      let progs ← ps.mapM fun j => do
+        let k ← getStr j "k"
+        match String.ofList k with
+        | "build" => pure (Prog.build (← getNat j "c") (← optStr j "pns"))
+        | "find_types" => pure (Prog.findTypes (← getStr j "q"))
+        | k => .error s!"bad prog {k}"
+      let sch ← getArr a "schedule"
+      let schedule ← sch.mapM fun j => match j.getNat? with
+        | .ok n => pure n
+        | .error _ => .error "bad schedule entry"
+      let s0 := if warm then doBuildXsi U w State.init else State.init
+      let sys := drain U w (runSched U w (Sys.start s0 progs) schedule)
+      pure <| ok (jObj [("results", jList (jOpt jOut) sys.results), ("state", jState sys.shared)])
   | _ => none
 
 end OpsCtx
